@@ -349,15 +349,31 @@ type result struct {
 	err    string
 }
 
+type writerFunc func(p []byte) (int, error)
+
+func (f writerFunc) Write(p []byte) (int, error) { return f(p) }
+
 func execOnce(prog *parser.Program, input string, native bool, cancelled bool) result {
 	return execOn(nil, prog, input, native, cancelled)
 }
 
 // execOn: as execOnce, but on the given Interpreter (reset first) when there is one
 func execOn(it *interp.Interpreter, prog *parser.Program, input string, native bool, cancelled bool) result {
-	var out bytes.Buffer
+	var out, errBuf bytes.Buffer
 	cfg := &interp.Config{Stdin: strings.NewReader(input), Output: &out, Error: &out, Argv0: "goawk", Environ: []string{"A", "1", "PATH", "/usr/bin:/bin"},
 		NoExec: !strings.Contains(prog.String(), "echo s") && !strings.Contains(prog.String(), "\"cat\""), NoFileWrites: true, NoFileReads: true}
+	if !cfg.NoExec {
+		// programs that start processes: which writers the configuration names depends on the input, so that all three
+		// arrangements occur for every such program -- one buffer for both streams; one writer of a func type (which
+		// Go cannot compare) for both; two different buffers
+		switch len(input) % 3 {
+		case 1:
+			w := writerFunc(out.Write)
+			cfg.Output, cfg.Error = w, w
+		case 2:
+			cfg.Error = &errBuf
+		}
+	}
 	if native {
 		cfg.Funcs = nativeFuncs
 	}
@@ -378,7 +394,7 @@ func execOn(it *interp.Interpreter, prog *parser.Program, input string, native b
 	} else {
 		status, err = interp.ExecProgram(prog, cfg)
 	}
-	r := result{out: out.String(), status: status}
+	r := result{out: out.String() + errBuf.String(), status: status}
 	if strings.Contains(r.out, "sh-err-") || strings.Contains(r.out, "to-cat-") {
 		// the child's stderr lines land between the program's own lines at a point the schedule decides
 		ls := strings.Split(r.out, "\n")
